@@ -13,7 +13,6 @@ import (
 	"os/exec"
 	"path/filepath"
 	"strings"
-	"sync"
 	"time"
 
 	"verifharness/lib"
@@ -212,23 +211,158 @@ func c18Trace(run *gRun, frames [][]byte) []string {
 	return t
 }
 
+type c18Want struct {
+	Wire string `json:"wire"`
+	Used int    `json:"used"`
+	End  bool   `json:"end"`
+	On   bool   `json:"on"`
+}
+
+func init() {
+	gSummarisers["c18"] = func(raw json.RawMessage, modelOK bool, scratch string) gSummary {
+		var st c18Stream
+		if err := json.Unmarshal(raw, &st); err != nil {
+			return gSummary{Text: string(raw), Fails: []lib.Failure{{Kind: "tie", Key: "harness/job", What: err.Error()}}}
+		}
+		return c18Summarise(c18RunPair(st, filepath.Join(scratch, "t")), modelOK)
+	}
+}
+
+func c18Summarise(res c18Result, modelOK bool) gSummary {
+	var s gSummary
+	st := res.st
+	p := st.Case.Prog
+	srv := p.Server
+	mode := st.Case.Mode
+	hist := func(k string) { s.Hist = append(s.Hist, k) }
+	fail := func(f lib.Failure) { s.Fails = append(s.Fails, f) }
+	dataReplies := 0
+	if res.on != nil && res.on.Fault == nil {
+		for _, f := range res.on.Frames {
+			if f.Typ == wire.Data {
+				dataReplies++
+			}
+		}
+	}
+	s.Text = p.text() + fmt.Sprint(mode, st.Case.Order, st.Case.Seed)
+	s.Nontrivial = dataReplies > 0 || len(p.Ops) >= 2
+	hist("server=" + srv)
+	hist("family=" + st.Fam)
+	hist("mode=" + mode)
+	hist(fmt.Sprintf("depth=%02d", len(p.Ops)))
+	hist(fmt.Sprintf("max-tx=%d", p.MaxTx))
+	for _, o := range p.Ops {
+		hist("request=" + o.K)
+		if o.K == "read" && st.Fam == "read-lengths" {
+			hist(fmt.Sprintf("read-len=%06d", o.Len))
+		}
+	}
+	if res.attempts > 1 {
+		hist(fmt.Sprintf("pairs-repeated-because-of-time-fields=%d", res.attempts-1))
+	}
+	// the shared oracles, on both runs; what only the allocator run shows is the allocator's doing
+	offKeys := map[string]bool{}
+	for _, f := range gCheckCommon(res.off) {
+		offKeys[f.Key] = true
+		f.Input = st
+		fail(f)
+	}
+	for _, f := range gCheckCommon(res.on) {
+		if offKeys[f.Key] {
+			continue
+		}
+		if !strings.HasPrefix(f.Key, "alloc/") {
+			f.Key = "alloc/" + f.Key
+		}
+		f.What = "only with the allocator: " + f.What
+		f.Input = st
+		fail(f)
+	}
+	if res.off.Fault != nil || res.on.Fault != nil {
+		return s
+	}
+	if res.diff != "" {
+		fail(lib.Failure{Kind: "oracle", Key: "alloc/response-bytes-differ/" + srv, What: "the reply stream with the allocator is not byte-identical to the one without",
+			Input: st, Expected: "identical streams", Actual: res.diff})
+	}
+	on, off := res.on, res.off
+	hist(fmt.Sprintf("pages-used-at-quiescence=%d", on.UsedQ))
+	if !on.AllocOn || off.AllocOn {
+		fail(lib.Failure{Kind: "tie", Key: "harness/allocator-option", What: "allocator option not reflected by the server", Input: st})
+	}
+	if on.UsedQ > 1 {
+		fail(lib.Failure{Kind: "oracle", Key: "alloc/pages-in-use-at-quiescence/" + srv, What: "pages still marked in use 2 s after the last reply was read (input open, nothing in flight)",
+			Input: st, Expected: "at most 1 (the receive page lent for the next frame)", Actual: on.UsedQ})
+	}
+	if on.UsedEnd != 0 || on.AvailEnd != 0 {
+		fail(lib.Failure{Kind: "oracle", Key: "alloc/not-freed-after-serve/" + srv, What: "allocator tables not empty after Serve returned",
+			Input: st, Expected: "used=0 avail=0", Actual: fmt.Sprintf("used=%d avail=%d", on.UsedEnd, on.AvailEnd)})
+	}
+	if st.Fam != "mixed" && len(p.Ops) <= 8 && mode == "gated" {
+		s.Sample = map[string]any{"program": p.text(), "mode": mode, "order": st.Case.Order, "replies": c02Replies(on),
+			"pages_used_at_quiescence": on.UsedQ, "pages_available_at_quiescence": on.AvailQ, "after_serve": fmt.Sprintf("used=%d avail=%d", on.UsedEnd, on.AvailEnd)}
+	}
+	// model comparison for runs whose schedule is known completely and whose payloads are small
+	if modelOK && (mode == "serial" || mode == "gated") {
+		total := 0
+		for _, f := range on.Frames {
+			total += len(f.Body)
+		}
+		allHeld := true
+		for _, rt := range on.Routes {
+			if rt.Sim.Gate == "" && mode == "gated" {
+				allHeld = false
+			}
+		}
+		if total <= 40000 && allHeld && len(p.Ops) <= 8 {
+			abs := st.Case.abs("/R")
+			var frames [][]byte
+			for _, o := range p.Ops {
+				frames = append(frames, o.frame(abs, "1"))
+			}
+			var ws []string
+			for _, f := range on.Frames {
+				ws = append(ws, c18ModelBytes(f))
+			}
+			mt := p.MaxTx
+			if mt == 0 {
+				mt = 32768
+			}
+			for _, run := range []*gRun{off, on} {
+				cfg := fmt.Sprintf("1111%d:%d:%d", map[bool]int{false: 0, true: 1}[run.Case.Prog.Alloc], c18PageSize, mt)
+				tr := c18Trace(run, frames)
+				s.Lines = append(s.Lines, "c18.run "+cfg+" "+strings.Join(tr, " "))
+				s.Wants = append(s.Wants, c18Want{Wire: strings.Join(ws, ","), Used: 1, On: run.Case.Prog.Alloc})
+				s.Lines = append(s.Lines, "c18.run "+cfg+" "+strings.Join(tr, " ")+" F")
+				s.Wants = append(s.Wants, c18Want{Wire: strings.Join(ws, ","), Used: 0, End: true, On: run.Case.Prog.Alloc})
+			}
+		}
+	}
+	return s
+}
+
 func checkC18(c *lib.Ctx) {
 	r := c.R
-	r.Rule = "request streams: (mixed) PRNG pipelines of depth 1…30 over all request kinds incl. failing ones; (read-lengths) READs of length 0, 1, 2, 32767…32769, 65535…65537, 100000, 262130…262132 (= page − 13 ± 1), 262143, 262144 and 300000 under max-tx-packet 32768 (default), 65536, 262131 and 262144, some crossing or past end of file; (writes) WRITEs up to the largest frame (262122 bytes); (held) 24…64 READs with one request held back while all others complete. Each stream is run serially (request after reply), pipelined un-gated, pipelined with PRNG handler durations, and pipelined with every instrumented call held and released in a chosen order (fifo, lifo, uniform, earliest-held-longest, hold-request-k) — each time against the server WITHOUT and WITH the allocator, same scratch tree and same forced order. A case = (server, stream, mode, order); non-trivial = at least one DATA reply or at least two requests in flight; distinct by (server, program, mode, order)"
+	r.Rule = "request streams: (mixed) PRNG pipelines of depth 1…30 over all request kinds incl. failing ones; (read-lengths) READs of length 0, 1, 2, 32767…32769, 65535…65537, 100000, 262130…262132 (= page − 13 ± 1), 262143, 262144 and 300000 under max-tx-packet 32768 (default), 65536, 262131 and 262144, some crossing or past end of file; (writes) WRITEs up to the largest frame (262122 bytes); (held) 24…64 READs with one request held back while all others complete. Each stream is run serially (request after reply), pipelined un-gated, pipelined with PRNG handler durations, and pipelined with every instrumented call held and released in a chosen order (fifo, lifo, uniform, earliest-held-longest, hold-request-k) — each time against the server WITHOUT and WITH the allocator, same scratch tree and same forced order. A case = (server, stream, mode, order) = one pair of runs; non-trivial = at least one DATA reply or at least two requests in flight; distinct by (server, program, mode, order)"
 	thorough := c.Tier == "thorough"
 	modelOK := gProbeModel(c, "c18.run 11111 L")
 	if !modelOK {
 		r.Skip("model comparison skipped: driver op `c18.run <cfg> <action>*` (lean/Sftp/Driver/C18.lean) is not served by the driver binary given with --model")
 	}
+	describe := func(raw json.RawMessage) (string, any) {
+		var st c18Stream
+		json.Unmarshal(raw, &st)
+		return st.Case.Prog.Server, st
+	}
 
-	var streams []c18Stream
+	var jobs []json.RawMessage
 	if c.Replay != "" {
 		var st c18Stream
 		if err := lib.ReadReplay(c.Replay, &st); err != nil {
 			r.Fail(lib.Failure{Kind: "tie", Key: "replay", What: err.Error()})
 			return
 		}
-		streams = []c18Stream{st}
+		jobs = append(jobs, gJSON(st))
 	} else {
 		styles := []string{"uniform", "fifo", "lifo", "first-last"}
 		add := func(fam string, p gProg, modes ...string) {
@@ -241,13 +375,13 @@ func checkC18(c *lib.Ctx) {
 					cs.Mode = "gated"
 					cs.Order = c02RandomOrder(p, c.Rand, strings.TrimPrefix(m, "gated/"))
 				}
-				streams = append(streams, c18Stream{Case: cs, Fam: fam})
+				jobs = append(jobs, gJSON(c18Stream{Case: cs, Fam: fam}))
 			}
 		}
 		for _, server := range []string{"rs", "os"} {
-			nMixed, nReads, nWrites, nHeld := 40, 6, 6, 10
+			nMixed, nReads, nWrites, nHeld := 150, 12, 12, 30
 			if thorough {
-				nMixed, nReads, nWrites, nHeld = 1500, 120, 120, 300
+				nMixed, nReads, nWrites, nHeld = 5000, 300, 300, 1000
 			}
 			for k := 0; k < nMixed; k++ {
 				g := newC02Gen(c.Rand, server)
@@ -270,178 +404,54 @@ func checkC18(c *lib.Ctx) {
 				if k%3 == 0 {
 					hold = 0
 				}
-				streams = append(streams, c18Stream{Case: gCase{Prog: p, Mode: "gated", Order: c18HoldOrder(p, hold, c.Rand), Tag: fmt.Sprintf("held/request-%d-last", hold)}, Fam: "held"})
+				jobs = append(jobs, gJSON(c18Stream{Case: gCase{Prog: p, Mode: "gated", Order: c18HoldOrder(p, hold, c.Rand), Tag: fmt.Sprintf("held/request-%d-last", hold)}, Fam: "held"}))
 			}
 		}
 	}
 
+	sums := gRunBatches(c, "c18", jobs, 1000, modelOK, describe)
+	gMerge(r, sums, 4)
+	if modelOK {
+		var lines []string
+		var wants []c18Want
+		var owner []int
+		for i, s := range sums {
+			for k := range s.Wants {
+				lines = append(lines, s.Lines[k])
+				wants = append(wants, s.Wants[k])
+				owner = append(owner, i)
+			}
+		}
+		if len(lines) > 0 {
+			out, err := c.Model(lines)
+			if err != nil {
+				r.Fail(lib.Failure{Kind: "tie", Key: "c18/model-driver", What: err.Error()})
+			} else {
+				for i, o := range out {
+					w := wants[i]
+					var wireS string
+					var used, avail, pan int
+					if _, err := fmt.Sscanf(o, "wire=%s used=%d avail=%d panic=%d", &wireS, &used, &avail, &pan); err != nil {
+						r.Fail(lib.Failure{Kind: "correspondence", Key: "c18/c18.run", What: "the model does not accept the schedule the implementation ran", Input: lines[i][:min(len(lines[i]), 2000)], Actual: o})
+						continue
+					}
+					// without the allocator the implementation has no tables: only the bytes are compared
+					okUsed := !w.On || used == w.Used
+					okEnd := !w.End || !w.On || avail == 0
+					if wireS != w.Wire || pan != 0 || !okUsed || !okEnd {
+						r.Fail(lib.Failure{Kind: "correspondence", Key: "c18/c18.run", What: "model and implementation differ (reply bytes, pages in use, or panic)", Input: sums[owner[i]].Text,
+							Expected: o[:min(len(o), 600)], Actual: fmt.Sprintf("wire=%s used=%d", w.Wire[:min(len(w.Wire), 400)], w.Used)})
+					}
+				}
+			}
+		}
+	}
 	top, err := os.MkdirTemp("", "vh-c18-")
 	if err != nil {
 		r.Fail(lib.Failure{Kind: "tie", Key: "harness/tmpdir", What: err.Error()})
 		return
 	}
 	defer os.RemoveAll(top)
-
-	results := make([]c18Result, len(streams))
-	var wg sync.WaitGroup
-	ch := make(chan int)
-	for w := 0; w < 8; w++ {
-		wg.Add(1)
-		root := filepath.Join(top, fmt.Sprintf("w%d", w), "t")
-		go func() {
-			defer wg.Done()
-			for i := range ch {
-				results[i] = c18RunPair(streams[i], root)
-			}
-		}()
-	}
-	for i := range streams {
-		ch <- i
-	}
-	close(ch)
-	wg.Wait()
-
-	var lines []string
-	type want struct {
-		wire      string
-		used      int
-		end       bool
-		st        c18Stream
-		on        bool
-		availImpl int
-	}
-	var wants []want
-	for _, res := range results {
-		st := res.st
-		p := st.Case.Prog
-		srv := p.Server
-		mode := st.Case.Mode
-		dataReplies := 0
-		if res.on != nil && res.on.Fault == nil {
-			for _, f := range res.on.Frames {
-				if f.Typ == wire.Data {
-					dataReplies++
-				}
-			}
-		}
-		r.Case(p.text()+fmt.Sprint(mode, st.Case.Order, st.Case.Seed), dataReplies > 0 || len(p.Ops) >= 2)
-		r.Hist("server=" + srv)
-		r.Hist("family=" + st.Fam)
-		r.Hist("mode=" + mode)
-		r.Hist(fmt.Sprintf("depth=%02d", len(p.Ops)))
-		r.Hist(fmt.Sprintf("max-tx=%d", p.MaxTx))
-		for _, o := range p.Ops {
-			r.Hist("request=" + o.K)
-			if o.K == "read" && st.Fam == "read-lengths" {
-				r.Hist(fmt.Sprintf("read-len=%06d", o.Len))
-			}
-		}
-		if res.attempts > 1 {
-			r.Hist(fmt.Sprintf("pairs-repeated-because-of-time-fields=%d", res.attempts-1))
-		}
-		// the shared oracles, on both runs; what only the allocator run shows is the allocator's doing
-		offKeys := map[string]bool{}
-		for _, f := range gCheckCommon(res.off) {
-			offKeys[f.Key] = true
-			f.Input = st
-			r.Fail(f)
-		}
-		for _, f := range gCheckCommon(res.on) {
-			if offKeys[f.Key] {
-				continue
-			}
-			if !strings.HasPrefix(f.Key, "alloc/") {
-				f.Key = "alloc/" + f.Key
-			}
-			f.What = "only with the allocator: " + f.What
-			f.Input = st
-			r.Fail(f)
-		}
-		if res.off.Fault != nil || res.on.Fault != nil {
-			continue
-		}
-		if res.diff != "" {
-			r.Fail(lib.Failure{Kind: "oracle", Key: "alloc/response-bytes-differ/" + srv, What: "the reply stream with the allocator is not byte-identical to the one without",
-				Input: st, Expected: "identical streams", Actual: res.diff})
-		}
-		on, off := res.on, res.off
-		r.Hist(fmt.Sprintf("pages-used-at-quiescence=%d", on.UsedQ))
-		if !on.AllocOn || off.AllocOn {
-			r.Fail(lib.Failure{Kind: "tie", Key: "harness/allocator-option", What: "allocator option not reflected by the server", Input: st})
-		}
-		if on.UsedQ > 1 {
-			r.Fail(lib.Failure{Kind: "oracle", Key: "alloc/pages-in-use-at-quiescence/" + srv, What: "pages still marked in use 2 s after the last reply was read (input open, nothing in flight)",
-				Input: st, Expected: "at most 1 (the receive page lent for the next frame)", Actual: on.UsedQ})
-		}
-		if on.UsedEnd != 0 || on.AvailEnd != 0 {
-			r.Fail(lib.Failure{Kind: "oracle", Key: "alloc/not-freed-after-serve/" + srv, What: "allocator tables not empty after Serve returned",
-				Input: st, Expected: "used=0 avail=0", Actual: fmt.Sprintf("used=%d avail=%d", on.UsedEnd, on.AvailEnd)})
-		}
-		if len(r.Samples) < 4 && st.Fam != "mixed" && len(p.Ops) <= 8 && mode == "gated" {
-			r.Sample(map[string]any{"program": p.text(), "mode": mode, "order": st.Case.Order, "replies": c02Replies(on),
-				"pages_used_at_quiescence": on.UsedQ, "pages_available_at_quiescence": on.AvailQ, "after_serve": fmt.Sprintf("used=%d avail=%d", on.UsedEnd, on.AvailEnd)})
-		}
-		// model comparison for runs whose schedule is known completely and whose payloads are small
-		if modelOK && (mode == "serial" || mode == "gated") {
-			total := 0
-			for _, f := range on.Frames {
-				total += len(f.Body)
-			}
-			allHeld := true
-			for _, rt := range on.Routes {
-				if rt.Sim.Gate == "" && mode == "gated" {
-					allHeld = false
-				}
-			}
-			if total <= 40000 && allHeld && len(p.Ops) <= 8 {
-				abs := st.Case.abs("/R")
-				var frames [][]byte
-				for _, o := range p.Ops {
-					frames = append(frames, o.frame(abs, "1"))
-				}
-				var ws []string
-				for _, f := range on.Frames {
-					ws = append(ws, c18ModelBytes(f))
-				}
-				mt := p.MaxTx
-				if mt == 0 {
-					mt = 32768
-				}
-				for _, run := range []*gRun{off, on} {
-					cfg := fmt.Sprintf("1111%d:%d:%d", map[bool]int{false: 0, true: 1}[run.Case.Prog.Alloc], c18PageSize, mt)
-					tr := c18Trace(run, frames)
-					lines = append(lines, "c18.run "+cfg+" "+strings.Join(tr, " "))
-					wants = append(wants, want{wire: strings.Join(ws, ","), used: 1, st: st, on: run.Case.Prog.Alloc})
-					lines = append(lines, "c18.run "+cfg+" "+strings.Join(tr, " ")+" F")
-					wants = append(wants, want{wire: strings.Join(ws, ","), used: 0, end: true, st: st, on: run.Case.Prog.Alloc})
-				}
-			}
-		}
-	}
-	if modelOK && len(lines) > 0 {
-		out, err := c.Model(lines)
-		if err != nil {
-			r.Fail(lib.Failure{Kind: "tie", Key: "c18/model-driver", What: err.Error()})
-		} else {
-			for i, o := range out {
-				w := wants[i]
-				var wireS string
-				var used, avail, pan int
-				if _, err := fmt.Sscanf(o, "wire=%s used=%d avail=%d panic=%d", &wireS, &used, &avail, &pan); err != nil {
-					r.Fail(lib.Failure{Kind: "correspondence", Key: "c18/c18.run", What: "the model does not accept the schedule the implementation ran", Input: lines[i][:min(len(lines[i]), 2000)], Actual: o})
-					continue
-				}
-				// without the allocator the implementation has no tables: only the bytes are compared
-				okUsed := !w.on || used == w.used
-				okEnd := !w.end || !w.on || avail == 0
-				if wireS != w.wire || pan != 0 || !okUsed || !okEnd {
-					r.Fail(lib.Failure{Kind: "correspondence", Key: "c18/c18.run", What: "model and implementation differ (reply bytes, pages in use, or panic)", Input: w.st,
-						Expected: o[:min(len(o), 600)], Actual: fmt.Sprintf("wire=%s used=%d", w.wire[:min(len(w.wire), 400)], w.used)})
-				}
-			}
-		}
-	}
-
 	c18F10(c, top)
 }
 
